@@ -10,6 +10,10 @@
 using namespace iora::network;
 using namespace std::chrono_literals;
 
+static bool g_failed = false;
+// a failed clause is reported and remembered; the other part of the scenario still runs, the process exits 1 at the end
+#define FAIL(msg) do { printf("REPLAY-FAIL: %s\n", std::string(msg).c_str()); fflush(stdout); g_failed = true; return 1; } while (0)
+
 static int by_hand(std::map<std::string, std::string> &in)
 {
   const bool idxHas = replay_io::u64(in["IDX_HAS"]) != 0, client = replay_io::u64(in["ROLE"]) != 0;
@@ -37,22 +41,22 @@ static int by_hand(std::map<std::string, std::string> &in)
          (unsigned long long)sid, client ? "ClientConnected" : "ServerPeer", pkeyIsK ? "==" : "!=", closed ? ", already closed" : "");
   eng.closeNow(b, TransportError::Unknown, "replay", 0);
   if (closed) {
-    if (closeCalls != 0 || eng._atomicStats.closed.load() != closed0 || eng._peerIndex.count(K) != (idxHas ? 1u : 0u)) replay_io::fail("idempotence: closing a closed session had an effect");
+    if (closeCalls != 0 || eng._atomicStats.closed.load() != closed0 || eng._peerIndex.count(K) != (idxHas ? 1u : 0u)) FAIL("idempotence: closing a closed session had an effect");
     replay_io::ok("closed session: nothing happened");
     return 0;
   }
-  if (closeCalls != 1 || closeSid != sid) replay_io::fail("X1 not exactly one close callback with the session id");
-  if (!erasedAtCb || eng._sessions.count(sid)) replay_io::fail("X2 session still in the table at/after the callback");
-  if (eng._atomicStats.closed.load() != closed0 + 1 || eng._atomicStats.sessionsCurrent.load() != cur0 - 1) replay_io::fail("X3 counters");
-  if (idxHas && idxVal == sid && eng._peerIndex.count(K)) replay_io::fail("U2 own index entry not removed");
+  if (closeCalls != 1 || closeSid != sid) FAIL("X1 not exactly one close callback with the session id");
+  if (!erasedAtCb || eng._sessions.count(sid)) FAIL("X2 session still in the table at/after the callback");
+  if (eng._atomicStats.closed.load() != closed0 + 1 || eng._atomicStats.sessionsCurrent.load() != cur0 - 1) FAIL("X3 counters");
+  if (idxHas && idxVal == sid && eng._peerIndex.count(K)) FAIL("U2 own index entry not removed");
   if (idxHas && idxVal != sid) {
     auto it = eng._peerIndex.find(K);
     if (it == eng._peerIndex.end())
-      replay_io::fail("U1 peer-index frame: closing session " + std::to_string(sid) + " ERASED _peerIndex[K] which maps to the OPEN session " +
+      FAIL("U1 peer-index frame: closing session " + std::to_string(sid) + " ERASED _peerIndex[K] which maps to the OPEN session " +
                       std::to_string(idxVal) + " - the next datagram from K opens a new session instead of arriving on " + std::to_string(idxVal));
-    if (it->second != idxVal) replay_io::fail("U1 peer-index frame: entry re-pointed");
+    if (it->second != idxVal) FAIL("U1 peer-index frame: entry re-pointed");
   }
-  if (!idxHas && eng._peerIndex.count(K)) replay_io::fail("U1b an index entry appeared");
+  if (!idxHas && eng._peerIndex.count(K)) FAIL("U1b an index entry appeared");
   replay_io::ok("contract clauses hold on this scenario");
   return 0;
 }
@@ -80,22 +84,22 @@ static int via_public_api()
   sockaddr_in to{}; to.sin_family = AF_INET; to.sin_addr.s_addr = htonl(INADDR_LOOPBACK); to.sin_port = htons(lport);
   auto wait = [&](auto pred) { for (int i = 0; i < 300; i++) { { std::lock_guard<std::mutex> g(mx); if (pred()) return true; } std::this_thread::sleep_for(10ms); } return false; };
   ::sendto(p, "one", 3, 0, (sockaddr *)&to, sizeof(to));
-  if (!wait([&] { return datas.size() == 1; })) replay_io::fail("API: first datagram not delivered");
+  if (!wait([&] { return datas.size() == 1; })) FAIL("API: first datagram not delivered");
   SessionId A = datas[0].first;
   auto cr = eng.connectViaListener(lid, "127.0.0.1", ntohs(me.sin_port));       // second session for the SAME peer address
-  if (!wait([&] { return connects.size() == 1; })) replay_io::fail("API: connectViaListener did not complete");
+  if (!wait([&] { return connects.size() == 1; })) FAIL("API: connectViaListener did not complete");
   SessionId B = cr.value();
   eng.close(B);                                                                 // close the OTHER session
-  if (!wait([&] { return closes.size() == 1; })) replay_io::fail("API: close(B) not notified");
+  if (!wait([&] { return closes.size() == 1; })) FAIL("API: close(B) not notified");
   ::sendto(p, "two", 3, 0, (sockaddr *)&to, sizeof(to));                         // same peer, session A is still open
   wait([&] { return datas.size() == 2; });
   { std::lock_guard<std::mutex> g(mx); printf("event log (A=%llu, B=%llu):", (unsigned long long)A, (unsigned long long)B); for (auto &l : log) printf(" [%s]", l.c_str()); printf("\n"); }
   ::close(p);
   eng.stop();
   std::lock_guard<std::mutex> g(mx);
-  if (datas.size() != 2) replay_io::fail("API: second datagram not delivered at all");
+  if (datas.size() != 2) FAIL("API: second datagram not delivered at all");
   if (accepts.size() != 1 || datas[1].first != A)
-    replay_io::fail("C06 violated through the public API: after close(B) the peer's next datagram was announced as a NEW session " + std::to_string(datas[1].first) +
+    FAIL("C06 violated through the public API: after close(B) the peer's next datagram was announced as a NEW session " + std::to_string(datas[1].first) +
                     " (accepts: " + std::to_string(accepts.size()) + ") although session " + std::to_string(A) + " for that peer is still open");
   replay_io::ok("public API: datagram after close(B) arrived on the open session A, no new accept");
   return 0;
@@ -107,5 +111,5 @@ int main(int argc, char **argv)
   if (argc > 1) in = replay_io::load(argv[1]);
   if (in.count("SID")) by_hand(in);
   if (!in.count("SID") || in.count("API")) via_public_api();
-  return 0;
+  return g_failed ? 1 : 0;
 }
